@@ -181,8 +181,11 @@ func c32ExecSend(c *vx.Ctx, w *vx.W, cs c32Case) {
 			ran++
 		}
 	done:
+		c.AddTransitions(int64(ran))
+		c.AddTraces(1)
 		if ran == len(cs.Ops) {
 			w.Nontrivial()
+			c.AddStates(1) // stateless search: one explored history
 		} else {
 			w.Outcome("case-truncated")
 		}
@@ -444,8 +447,11 @@ func c32ExecRecv(c *vx.Ctx, w *vx.W, cs c32Case) {
 			ran++
 		}
 	done:
+		c.AddTransitions(int64(ran))
+		c.AddTraces(1)
 		if ran == len(cs.Ops) {
 			w.Nontrivial()
+			c.AddStates(1) // stateless search: one explored history
 		} else {
 			w.Outcome("case-truncated")
 		}
@@ -495,7 +501,7 @@ func (g c32RecvGen) Apply(op string) (qpeerGen, bool) {
 
 func TestVerif_C32(t *testing.T) {
 	vx.Run(t, "C32", func(c *vx.Ctx) {
-		c.Rule("q-peer, each case on a fresh handshaken Conn in its own synctest bubble, every enabled operation sequence up to the depth of the part, shortest first. send: Write(1|100|5000)/Flush/CloseWrite/Reset, peer STOP_SENDING/MAX_STREAM_DATA, ack-all / all-outstanding-lost / PTO on a local uni, local bidi or accepted bidi stream with a 150-byte stream window; a monitor checks every frame sent. recv: peer STREAM/RESET_STREAM with end offsets {k-1,k,k+1} around the known final size (or the highest offset received), new data with/without FIN, Read(100), Read(1), CloseRead on a peer uni/bidi stream; reference RFC 9000 4.5. Non-trivial = the whole sequence ran (or ended in the expected FINAL_SIZE_ERROR).")
+		c.Rule("q-peer, each case on a fresh handshaken Conn in its own synctest bubble, every enabled operation sequence up to the depth of the part, shortest first. send: Write(1|100|5000)/Flush/CloseWrite/Reset, peer STOP_SENDING/MAX_STREAM_DATA, ack-all / all-outstanding-lost / PTO on a local uni, local bidi or accepted bidi stream with a 150-byte stream window; a monitor checks every frame sent. recv: peer STREAM/RESET_STREAM with end offsets {k-1,k,k+1} around the known final size (or the highest offset received), new data with/without FIN, Read(100), Read(1), CloseRead on a peer uni/bidi stream; reference RFC 9000 4.5. Non-trivial = the whole sequence ran (or ended in the expected FINAL_SIZE_ERROR). Counters: states = histories explored completely (stateless search, no deduplication), transitions = operations applied to the real conn and checked, traces = cases executed.")
 		c.Assume("bytes that were already moved to the lock-free read buffer may still be returned by Read after a reset; only io.EOF and a missing reset error are violations")
 		c.Assume("after the application called CloseRead the conn may forget the stream: RFC 9000 4.5 makes FINAL_SIZE_ERROR non-mandatory for closed streams, so a contradiction that arrives after CloseRead may or may not be reported (a wrong error code or the rejection of a consistent frame is still a violation), and Read results after CloseRead are not checked")
 		c.Assume("flow-control limits are far away (recv) / connection-level limit is far away (send); C20 covers those")
